@@ -16,7 +16,9 @@ EXPLANATION = (
     "element read from the sequence; SeqAccess::size_hint must not be in the dependency slice of that "
     "comparison. SIZED-COPY: slice constructors and variable-length visitors size the destination from the "
     "source before copy_from_slice, and every element store arr[idx] is preceded on every path by idx < len "
-    "or a resize to more than idx. PARTS: from_parts/into_parts are pure field moves.")
+    "or a resize to more than idx. PARTS: from_parts/into_parts are pure field moves. WRITER: on every path of "
+    "to_bytes the copies from fields of self tile the output buffer (first piece at offset 0, each constant end "
+    "is the next start, exactly the last piece open-ended, no field written twice).")
 NOT_DECIDED = ("equality of the decoded object with the encoded one; serde_json/bincode format specifics; that decoded "
                "objects still decrypt/verify.")
 
@@ -73,6 +75,88 @@ def framing(rep, prog):
         for f in cm.find_method(prog, ty, m):
             cm.accepts_min_len(rep, prog, f, 1, minimum, "FRAMING", "%s::%s" % (ty.split("::")[-1], m))
     rep.floor("framing pairs", n, 3)
+    # WRITER: the boundary offsets above say where a writer cuts its output, not that it fills every piece
+    nw = 0
+    for ty in ("sign::SignedMessage", "dryocsecretbox::DryocSecretBox", "dryocbox::DryocBox"):
+        for f in cm.find_method(prog, ty, "to_bytes"):
+            nw += writer_fills(rep, prog, f, ty.split("::")[-1])
+    rep.floor("to_bytes writers whose pieces were followed (paths)", nw, 4)
+
+
+def writer_fills(rep, prog, f0, nm):
+    """On every path of `to_bytes` from entry to return, the copies from fields of `self` into the output buffer
+    tile it: the first piece starts at offset 0, every piece with a constant end is followed by a piece that
+    starts there, exactly the last piece is open-ended, and no field is written twice.  (Deleting one of
+    `s[..64].copy_from_slice(signature)` / `s[64..].copy_from_slice(message)` leaves the cut offsets in place
+    and a zero-filled piece in the output.)  Returns the number of paths followed; writers that do not use
+    constant-range copies are reported as not decided (no alarm)."""
+    f = inline(prog, f0)
+    copies = {}
+    for c in f.calls():
+        if (c.path in cm.COPY or c.rpath in cm.COPY) and len(c.args) == 2 and not f.blocks[c.bb]["cleanup"]:
+            ld, ls = list(operand_locals(c.args[0])), list(operand_locals(c.args[1]))
+            if not ld or not ls:
+                continue
+            droot, ds, de = cm.view_extent(f, ld[0])
+            sroot = cm.view_info(f, ls[0])[0]
+            if sroot != 1 or droot is None or 1 <= droot <= f.argc:
+                continue
+            copies[c.bb] = (ds, de, deep_repr(expr_of_operand(f, c.args[1])), c)
+    if not copies or any(v[0] is None for v in copies.values()):
+        rep.note("WRITER: %s::to_bytes does not assemble its output from constant-range copies of its fields: not decided" % nm)
+        return 0
+    # loops: not this rule's shape
+    rets = [b for b in range(f.n) if f.blocks[b]["t"]["k"] == "return"]
+    paths = []
+    st0 = (None,) * len(f.merges[0])
+    work = [(0, st0, ())]
+    seen_states = 0
+    visited = set()
+    while work:
+        b, st, seq = work.pop()
+        if (b, st, seq) in visited:
+            continue
+        visited.add((b, st, seq))
+        seen_states += 1
+        if seen_states > 20000 or len(paths) > 64:
+            rep.note("WRITER: %s::to_bytes has too many paths: not decided" % nm)
+            return 0
+        if b in copies:
+            if b in seq:
+                rep.note("WRITER: %s::to_bytes copies inside a loop: not decided" % nm)
+                return 0
+            seq = seq + (b,)
+        if b in rets:
+            paths.append(seq)
+            continue
+        st2, succ = f._step(b, st)
+        for s in succ:
+            if not f.blocks[s]["cleanup"]:
+                work.append((s, st2, seq))
+        if len(work) > 5000:
+            rep.note("WRITER: %s::to_bytes has too many paths: not decided" % nm)
+            return 0
+    n = 0
+    for seq in sorted(set(paths)):
+        n += 1
+        segs = sorted((copies[b][0], copies[b][1], copies[b][2]) for b in seq)
+        ok, why = True, "pieces %s" % ([(s, e) for s, e, _ in segs],)
+        if not segs:
+            ok, why = False, "a path returns without copying any field into the output"
+        else:
+            if segs[0][0] != 0:
+                ok, why = False, "no piece starts at offset 0: pieces %s" % ([(s, e) for s, e, _ in segs],)
+            for (s1, e1, _), (s2, e2, _) in zip(segs, segs[1:]):
+                if e1 != s2:
+                    ok, why = False, "the piece [%s..%s) is followed by [%s..%s): a piece of the output is never written (or written twice)" % (s1, e1, s2, e2 if e2 is not None else "")
+            if segs[-1][1] is not None:
+                ok, why = False, "nothing is written from offset %s on (the last piece ends at a constant offset)" % segs[-1][1]
+            srcs = [x for _, _, x in segs]
+            if len(set(srcs)) != len(srcs):
+                ok, why = False, "the same field is the source of two pieces: %s" % srcs
+        rep.ob("WRITER", "%s::to_bytes|pieces %s" % (nm, "+".join(str(s) for s, _, _ in segs) or "none"), ok, why,
+               loc=copies[seq[0]][3].loc() if seq else f.loc())
+    return n
 
 
 def fixed_decoders(prog):
